@@ -97,15 +97,17 @@ def shift_add_product(sx, x, y, yhi):
 
 
 class SymX:
-    def __init__(self, path, verbose=False, inputs=None, prefix="", share=None):
+    def __init__(self, path, verbose=False, inputs=None, prefix="", share=None, share_vars=None):
         self.ir = path if isinstance(path, dict) else json.load(open(path))
         self.prefix = prefix
         self.share = share          # another SymX whose input variables are reused (self-composition)
+        self.share_vars = share_vars or {}   # class -> z3 Int var to use for that (input) class
         self.collapsed = set()      # limb classes eliminated by the range-variable collapse
         self.defs = []              # definitional assertions (total: aux var domains/definitions)
         self.recomp = []            # (term_expr, [(var, offset, bits)]) positional recompositions seen
         self.range_vars = {}        # z3 var name -> (var, bits)
         self.rng_limbs = {}         # z3 var name -> (var, [limb classes, little endian]) of collapsed limbs
+        self.rng_bools = {}         # z3 Bool name -> (var, limb class) for 1-limb collapses
         self.input_classes = set()
         for n in (inputs or []):
             self.input_classes.update(self.ir["named"][n])
@@ -234,6 +236,10 @@ class SymX:
         if t is not None:
             return t
         self.stats["free_ints"] += 1
+        if c in self.share_vars:
+            x = self.share_vars[c]
+            self.freevars[c] = x
+            return T.integer(x, 0, P - 1)
         if c in self.input_classes and self.share is not None:
             x = self.share.freevars[c]
             self.freevars[c] = x
@@ -455,6 +461,12 @@ class SymX:
             if free_prefix == 0:
                 return T.const(0)
             self.stats["range_vars"] += 1
+            if free_prefix == 1:
+                # a single free limb is just a Boolean (keeps products with it out of the UF abstraction)
+                self.nfresh += 1
+                bvar = z3.Bool(f"{self.prefix}rb{r}_{self.nfresh}")
+                self.rng_bools[str(bvar)] = (bvar, limbs[0])
+                return T.boolean(bvar)
             x = self.fresh_int(f"rng{r}", 0, (1 << free_prefix) - 1)
             self.range_vars[str(x)] = (x, free_prefix)
             self.rng_limbs[str(x)] = (x, [c for c in limbs[:free_prefix]])
